@@ -551,7 +551,7 @@ pub fn c16(ctx: &Ctx) -> Report {
         // (sample rate, in-range levels as fractions of the boundary, reported presses explored, depth bound)
         let runs: Vec<(u32, Vec<f32>, u32, Option<u32>)> = if ti == 0 {
             if thorough {
-                vec![(100, vec![0.1, 0.5, 0.9], 3, None), (334, vec![0.1, 0.5, 0.9], 3, None), (500, vec![0.1, 0.5, 0.9], 2, None), (1000, vec![0.1, 0.9], 1, Some(21))]
+                vec![(100, vec![0.1, 0.5, 0.9], 3, None), (334, vec![0.1, 0.5, 0.9], 3, None), (500, vec![0.1, 0.9], 3, None)]
             } else {
                 vec![(100, vec![0.1, 0.5, 0.9], 3, None), (334, vec![0.1, 0.5, 0.9], 2, None), (500, vec![0.1, 0.9], 2, None)]
             }
